@@ -225,17 +225,17 @@ func corpusBinary() [][]byte {
 	return [][]byte{
 		{},
 		h("42"), h("420078"), h("42007801"), h("4200780100"), h("42007801000000"),
-		h("4200780200000000"),                                  // Integer of length 0
-		h("4200780200000003 0000000000000000"),                 // Integer of length 3
-		h("4200780300000004 0000000000000000"),                 // Long of length 4
-		h("4200780400000000"),                                  // BigInteger of length 0
-		h("4200780500000002 0000000000000000"),                 // Enum of length 2
-		h("4200780600000001 0100000000000000"),                 // Bool of length 1
-		h("4200780900000000"),                                  // DateTime of length 0
-		h("4200780A00000000"),                                  // Interval of length 0
-		h("4200780100000001 0000000000000000"),                 // Structure of length 1
-		h("4200780100000003 4200010000000000"),                 // Structure of length 3
-		h("4200780100000004 4200010200000000"),                 // Structure of length 4 (header cut)
+		h("4200780200000000"),                                   // Integer of length 0
+		h("4200780200000003 0000000000000000"),                  // Integer of length 3
+		h("4200780300000004 0000000000000000"),                  // Long of length 4
+		h("4200780400000000"),                                   // BigInteger of length 0
+		h("4200780500000002 0000000000000000"),                  // Enum of length 2
+		h("4200780600000001 0100000000000000"),                  // Bool of length 1
+		h("4200780900000000"),                                   // DateTime of length 0
+		h("4200780A00000000"),                                   // Interval of length 0
+		h("4200780100000001 0000000000000000"),                  // Structure of length 1
+		h("4200780100000003 4200010000000000"),                  // Structure of length 3
+		h("4200780100000004 4200010200000000"),                  // Structure of length 4 (header cut)
 		h("4200780100000008 4200010200000010 0000000100000000"), // child longer than parent, followed by data
 		h("4200780100000008 4200010700000008 4142434445464748"), // text child announcing 8 bytes inside an 8-byte struct
 		h("4200780100000010 4200010400000000 4200020200000004"), // struct: big integer length 0 then cut int
